@@ -59,6 +59,11 @@ type normalizer struct {
 	src     map[string][]byte // file name -> current text
 	counter int
 	log     []string
+
+	closures   map[types.Object]*closureInfo // local closure variables that are only ever called
+	closureSet bool
+	marked     map[types.Object]bool // closures that received (or already have) a `_ = f` marker this round
+	extra      map[string][]textEdit // edits produced on the side (markers), per file
 }
 
 func (n *normalizer) off(p token.Pos) int { return n.fset.Position(p).Offset }
@@ -77,11 +82,10 @@ func (n *normalizer) calleeDecl(fn *types.Func) (*ast.FuncDecl, *ast.File) {
 }
 
 // inlinable checks the callee's shape.
-func (n *normalizer) inlinable(fd *ast.FuncDecl, fn *types.Func) bool {
+func (n *normalizer) inlinable(fd *ast.FuncDecl, sig *types.Signature, fn types.Object) bool {
 	if fd.Body == nil || fd.Type.TypeParams != nil {
 		return false
 	}
-	sig := fn.Type().(*types.Signature)
 	if sig.Variadic() || sig.TypeParams() != nil || sig.RecvTypeParams() != nil {
 		return false
 	}
@@ -131,11 +135,11 @@ func (n *normalizer) inlinable(fd *ast.FuncDecl, fn *types.Func) bool {
 				if id.Name == "recover" {
 					ok = false
 				}
-				if n.pkg.TypesInfo.Uses[id] == types.Object(fn) {
+				if n.pkg.TypesInfo.Uses[id] == fn {
 					ok = false
 				}
 			}
-			if sel, isSel := y.Fun.(*ast.SelectorExpr); isSel && n.pkg.TypesInfo.Uses[sel.Sel] == types.Object(fn) {
+			if sel, isSel := y.Fun.(*ast.SelectorExpr); isSel && n.pkg.TypesInfo.Uses[sel.Sel] == fn {
 				ok = false
 			}
 		}
@@ -386,8 +390,7 @@ func (n *normalizer) staticCallee(call *ast.CallExpr) (*types.Func, ast.Expr) {
 }
 
 func (n *normalizer) isTarget(call *ast.CallExpr) bool {
-	fn, _ := n.staticCallee(call)
-	return fn != nil && fn.Pkg() == n.pkg.Types && !knownFuncs[fn.FullName()]
+	return n.resolveCallee(call) != nil
 }
 
 // inlineCall renders "var r0 T0 ...; { bindings; L: for { body; break L } }" for one call
@@ -479,13 +482,16 @@ func (n *normalizer) retErrKind(fd *ast.FuncDecl, z *ast.ReturnStmt, nres int) s
 
 func (n *normalizer) inlineCallX(call *ast.CallExpr, file *ast.File, at token.Pos, opts *inlineOpts) (string, []string, bool) {
 	info := n.pkg.TypesInfo
-	fn, recvExpr := n.staticCallee(call)
-	if fn == nil || fn.Pkg() != n.pkg.Types || knownFuncs[fn.FullName()] {
-		return "", nil, false
+	ref := n.resolveCallee(call)
+	if ref == nil {
+		return n.fail(1)
 	}
-	fd, cfile := n.calleeDecl(fn)
-	if fd == nil || !n.inlinable(fd, fn) {
-		return "", nil, false
+	fd, cfile, recvExpr, sig := ref.fd, ref.file, ref.recv, ref.sig
+	if fd == nil || !n.inlinable(fd, sig, ref.obj) {
+		return n.fail(2)
+	}
+	if !n.sameMeaningAt(ref, fd.Body, at) {
+		return n.fail(3)
 	}
 	callerImports := map[string]string{}
 	for _, im := range file.Imports {
@@ -512,7 +518,7 @@ func (n *normalizer) inlineCallX(call *ast.CallExpr, file *ast.File, at token.Po
 		return okImp
 	})
 	if !okImp {
-		return "", nil, false
+		return n.fail(4)
 	}
 	// hygiene: package-level names used by the callee must mean the same thing at the call site
 	inner := n.pkg.Types.Scope().Innermost(at)
@@ -530,13 +536,12 @@ func (n *normalizer) inlineCallX(call *ast.CallExpr, file *ast.File, at token.Po
 		return okScope
 	})
 	if !okScope {
-		return "", nil, false
+		return n.fail(5)
 	}
 	n.counter++
 	k := n.counter
 	prefix := fmt.Sprintf("inl%d_", k)
 	label := fmt.Sprintf("inl%dL", k)
-	sig := fn.Type().(*types.Signature)
 	var missing []*types.Package
 	q := n.qualifierFor(file, &missing)
 	src := n.src[n.fset.Position(file.Pos()).Filename]
@@ -546,7 +551,7 @@ func (n *normalizer) inlineCallX(call *ast.CallExpr, file *ast.File, at token.Po
 	var temps []string
 	if opts != nil {
 		if len(opts.targets) != nres {
-			return "", nil, false
+			return n.fail(6)
 		}
 		temps = opts.targets
 	} else {
@@ -596,7 +601,7 @@ func (n *normalizer) inlineCallX(call *ast.CallExpr, file *ast.File, at token.Po
 		}
 	}
 	if len(call.Args) != sig.Params().Len() {
-		return "", nil, false
+		return n.fail(7)
 	}
 	pi := 0
 	for _, f := range fd.Type.Params.List {
@@ -620,7 +625,7 @@ func (n *normalizer) inlineCallX(call *ast.CallExpr, file *ast.File, at token.Po
 		}
 	}
 	if len(missing) > 0 {
-		return "", nil, false
+		return n.fail(8)
 	}
 	var namedRes []string
 	if fd.Type.Results != nil {
@@ -659,14 +664,23 @@ func (n *normalizer) inlineCallX(call *ast.CallExpr, file *ast.File, at token.Po
 	}
 	body, ok := n.bodyTextX(fd, cfile, prefix, subst, retStmt, retTail, avoid)
 	if !ok {
-		return "", nil, false
+		return n.fail(9)
 	}
 	body = strings.ReplaceAll(body, "\x00", "")
 	body = strings.ReplaceAll(body, "\x01", "; break "+label)
 	// a labeled switch (not a loop): `continue` inside a copied failure handler still means the caller's loop
 	fmt.Fprintf(&sb, "%s:\nswitch {\ndefault:\n%s\nbreak %s\n}\n}\n", label, body, label)
-	n.log = append(n.log, fmt.Sprintf("%s: inlined %s", n.fset.Position(call.Pos()), fn.FullName()))
+	n.log = append(n.log, fmt.Sprintf("%s: inlined %s", n.fset.Position(call.Pos()), ref.name))
+	n.noteInlined(ref)
 	return sb.String(), temps, true
+}
+
+// fail reports (under NORM_DEBUG) which condition stopped an inlining attempt.
+func (n *normalizer) fail(k int) (string, []string, bool) {
+	if os.Getenv("NORM_DEBUG") != "" {
+		fmt.Fprintf(os.Stderr, "inline attempt stopped at condition %d\n", k)
+	}
+	return "", nil, false
 }
 
 // hoistTargets finds the calls of new helpers among the expressions of one statement, in
@@ -1094,6 +1108,9 @@ func collectStmtsX(body *ast.BlockStmt, out *[]ast.Stmt, next map[ast.Stmt]ast.S
 
 // normalizePackage returns new file contents for the files it changed.
 func (n *normalizer) normalizePackage() map[string][]byte {
+	if out := n.exprPass(); len(out) > 0 {
+		return out
+	}
 	out := map[string][]byte{}
 	for _, f := range n.pkg.Syntax {
 		fname := n.fset.Position(f.Pos()).Filename
@@ -1141,6 +1158,7 @@ func (n *normalizer) normalizePackage() map[string][]byte {
 			edits = append(edits, textEdit{n.off(st.Pos()), n.off(st.End()), txt})
 			lastEnd = st.End()
 		}
+		edits = append(edits, n.extra[fname]...)
 		if len(edits) > 0 {
 			out[fname] = applyEdits(n.src[fname], edits)
 		}
